@@ -89,6 +89,17 @@ Theorem c18_applied_bits_order_independent : forall l l', Permutation l l' ->
   forall st, mark_all st l = mark_all st l'.
 Proof. exact mark_all_perm. Qed.
 
+(* exactly the applied bits are set, for a whole set of patches: bit j of byte k of IFT (c = true) /
+   IFTX (c = false) afterwards = old value OR "some applied patch of that table has bit index 8k+j";
+   lengths unchanged, an absent table stays absent *)
+Theorem c18_applied_bits_exact : forall c infos st st', mark_all st infos = inr st' ->
+  Forall (fun i => 0 <= pi_bit i) infos ->
+  (side c st = None -> side c st' = None) /\
+  (forall d, side c st = Some d -> exists d', side c st' = Some d' /\ length d' = length d /\
+     forall k x, nth_error d k = Some x -> exists x', nth_error d' k = Some x' /\
+       forall j, 0 <= j -> Z.testbit x' j = Z.testbit x j || existsb (hits1 c k j) infos).
+Proof. exact mark_all_spec. Qed.
+
 (* atomic bookkeeping: for EVERY decoder (hence every failure index and error kind), every font and
    every status map, an error leaves the caller's status map exactly as it was *)
 Theorem c18_error_leaves_bookkeeping : forall dec f inv noninv st e st',
@@ -123,6 +134,7 @@ Print Assumptions c18_glyf_loca_are_the_builder_output.
 Print Assumptions c18_other_tables_identical.
 Print Assumptions c18_applied_bit_update_exact.
 Print Assumptions c18_applied_bits_order_independent.
+Print Assumptions c18_applied_bits_exact.
 Print Assumptions c18_error_leaves_bookkeeping.
 Print Assumptions c18_success_flips_exactly_applied.
 Print Assumptions c18_order_independent.
